@@ -35,7 +35,10 @@ struct Source<T> { items: std::collections::VecDeque<Item<T>>, polls_after_end: 
 impl<T: Unpin> tokio_stream::Stream for Source<T> {
     type Item = Result<T, Status>;
     fn poll_next(mut self: Pin<&mut Self>, cx: &mut Context<'_>) -> Poll<Option<Self::Item>> {
-        if self.ended { self.polls_after_end.fetch_add(1, Ordering::SeqCst); return Poll::Ready(None); }
+        // not fused: a source polled again after it has ended is allowed to do anything; this one reports it as an item, so that
+        // an encoder which polls past the end shows up on the wire
+        if self.ended { let n = self.polls_after_end.fetch_add(1, Ordering::SeqCst);
+            return if n == 0 { Poll::Ready(Some(Err(Status::data_loss("message source polled after it had ended")))) } else { Poll::Ready(None) }; }
         match self.items.pop_front() {
             None => { self.ended = true; Poll::Ready(None) }
             Some(Item::Pend) => { cx.waker().wake_by_ref(); Poll::Pending }
